@@ -24,6 +24,8 @@ TECHNIQUE += '; interpretation of the declared-base resolution of the model buil
 LEVEL_TEXT += ' Added clause: a class declared `::Name::Base` is created with the declared bases whether or not each name is already known to the builder.'
 TECHNIQUE += '; construction contracts interpreted on stand-ins (untyped rule keeps its AST; typed rule hands AST and further parameters to the first name of the spec; constructor lookup registered -> builtin -> synthesized-and-registered; SynthNode/BaseNode attribute injection incl. falsy values; non-dict AST kept)'
 LEVEL_TEXT += ' Added clauses: see technique (C07.R5).'
+TECHNIQUE += '; dispatch namespace of the framework walkers (no framework method under the walk_ prefix other than the generic child traversal)'
+LEVEL_TEXT += ' Added clause: no model class name is captured by a helper of the walker framework.'
 LEVEL_NOTE = 'Eager interpretation of generators (a generator call whose values are not consumed contributes nothing, as in Python).'
 EXPLANATION = ('Static analysis of /repo sources, TatSu not imported. The dfs inside Node._cached_children is interpreted by the '
                'whitelisted evaluator; walkers are checked structurally.')
